@@ -24,6 +24,7 @@ EXPLANATION = (
     "value derived from the source dtype (so E.dtype(native) keeps unit / tz / categories / precision ...); (R8) no "
     "Engine.dtype resolver writes shared state (no memo keyed by native dtype objects, whose equality is coarser than "
     "pandera's); (R9) every engine-level check override establishes the kind of the other type (native type equality / isinstance / inherited check) besides comparing parameters; (R10) a resolver re-parses the printed name of a numpy dtype only under a test of its kind (sized string/bytes/void names are not parseable). (R11) register_dtype installs a from_parametrized_dtype hook only when the class defines it in its own namespace (`in cls.__dict__`) and reads it from there - an inherited hook re-registered for a user subclass would take over the parent's native types. " 
+    " (R12) a dataclass field that the native constructor canonicalises (DateTime.tz) is re-bound from the native object in __post_init__, so equal native types give equal, equally hashed dtypes; (R13) the infer_dtype labels 'mixed-integer' / 'mixed' are equivalents of the object dtype only. " 
     "NOT decided: closure of the runtime registry under resolve/print/resolve, "
     "parameterised types, anything depending on what pandas/numpy/pyarrow objects print."
 )
